@@ -184,12 +184,35 @@ func propC16Flip(t *rapid.T) {
 	if !lv.BufferIntact() {
 		t.Fatalf("Flip wrote to the caller's buffer [%s]", desc)
 	}
-	// independence
+	// independence, and the result is a bitmap like any other: take values out of several of its chunks
 	if !want.IsEmpty() {
 		x := uint32(want.Min())
 		got.Remove(x)
 		if diff := live.Check(b, m); diff != "" {
 			t.Fatalf("mutating Flip's result changed the operand: %s [%s]", diff, desc)
+		}
+		wm := want.Clone()
+		wm.Remove(uint64(x))
+		keys := wm.Keys16()
+		for i, k := range keys {
+			if i%3 != 1 && i != len(keys)-1 {
+				continue
+			}
+			cw := wm.Window(uint64(k)<<16, uint64(k)<<16+65535)
+			if cw.IsEmpty() {
+				continue
+			}
+			v := cw.Min() + (cw.Max()-cw.Min())/2
+			got.Remove(uint32(v))
+			wm.Remove(v)
+			got.RemoveRange(cw.Min(), cw.Min()+3)
+			wm.RemoveRange(cw.Min(), cw.Min()+2)
+			if i > 12 {
+				break
+			}
+		}
+		if diff := live.Check(got, wm); diff != "" {
+			t.Fatalf("the result of Flip(b,%d,%d) misbehaves under later removals: %s [%s]", s, e, diff, desc)
 		}
 	}
 	runtime.KeepAlive(lv)
